@@ -82,19 +82,20 @@ Proof.
 Qed.
 
 (* ---------- strings and zero fill ---------- *)
-Lemma emit_pairs_chars : forall s, Forall (fun c => 16 <= c /\ c < 256) s ->
-  emit_pairs (length s) (concat (map hexdigits s)) = Ok s.
+Lemma emit_pairs_chars : forall s, Forall (fun c => c < 256) s ->
+  emit_pairs (length s) (concat (map (fmt_hex 2) s)) = Ok s.
 Proof.
-  induction s as [|c s IH]; intros H; [reflexivity|]. inversion H as [|? ? [H1 H2] Hs]; subst.
-  cbn [map concat length]. rewrite hexdigits_lt256 by assumption. cbn [app emit_pairs]. rewrite (IH Hs). cbn [bind].
+  induction s as [|c s IH]; intros H; [reflexivity|]. inversion H as [|? ? H2 Hs]; subst.
+  cbn [map concat length]. rewrite fmt_hex_2 by assumption. cbn [app emit_pairs]. rewrite (IH Hs). cbn [bind].
   f_equal. f_equal. lia.
 Qed.
 
-Theorem string_emits_its_characters s : Forall (fun c => 16 <= c /\ c < 256) s -> emit_value (VStr s) = Ok s.
+(* every character below 256 - control characters included (false upstream below $10: repair F50) *)
+Theorem string_emits_its_characters s : Forall (fun c => c < 256) s -> emit_value (VStr s) = Ok s.
 Proof.
   intros H. unfold emit_value, v_hex, v_hex_len.
-  assert (L : length (concat (map hexdigits s)) = (2 * length s)%nat).
-  { clear -H. induction s as [|c s IH]; [reflexivity|]. inversion H as [|? ? [H1 H2] Hs]; subst. cbn [map concat]. rewrite app_length, (IH Hs). rewrite hexdigits_lt256 by assumption. cbn [length]. lia. }
+  assert (L : length (concat (map (fmt_hex 2) s)) = (2 * length s)%nat).
+  { clear -H. induction s as [|c s IH]; [reflexivity|]. inversion H as [|? ? H2 Hs]; subst. cbn [map concat]. rewrite app_length, (IH Hs). rewrite fmt_hex_2 by assumption. cbn [length]. lia. }
   rewrite L. replace ((2 * length s + 1) / 2)%nat with (length s) by lia.
   now apply emit_pairs_chars.
 Qed.
